@@ -3,6 +3,12 @@
 import json, os, subprocess
 V = os.path.dirname(os.path.dirname(os.path.abspath(__file__)))
 TEXT = {
+ 'C18': ('invariant-at-a-hook monitor: PortGraph invariant (ins<->sink, outs<->source mutually inverse, no stream at two ports, fixed sizes, placeholders) walked after every real rewiring operation + per-operation postconditions',
+         'Exploration with a bounded exhaustive core: every sequence of enabled concrete operations up to depth 2 (quick) / 3 (thorough) over a 3-unit/5-stream universe, plus seeded random histories of <=50 operations over 3-8 units (construction, slices, pipes, insert/take_place_of/replace_with, reconnect, placeholders).',
+         'Operations are used within the preconditions the property lists (checked on the live state before each call).'),
+ 'C19': ('graph-oracle monitor: Network.from_units run on real unit graphs and compared with plain DFS reachability / topological order / loop membership, over permutations of the unit list',
+         'Exploration: seeded random connected DAGs of 2-10 units (all permutations for <=4 units, 5 otherwise) and the same with 1-3 cycle-closing back-edges; path completeness, order, recycle reporting and backward-edge loop membership are judged.',
+         'Every unit is reachable from a feed and reaches a product (generator-enforced).'),
  'C01': ('conservation monitor: dense CAS-keyed ledger of every stream before/after real mix_from/split_to/separate_out/copy_flow(remove)/scale/Stream.sum calls + sparse invariants',
          'Exploration: seeded random cases (Stream/MultiStream receivers and inlets, receiver among inlets, foreign property packages, stale outlets, exact 0/1 splits, all-zero inlets) executed on the real code; a dense ledger model decides per-chemical conservation after each call. Held-on-what-was-observed only.',
          'Receiver package lists every inlet chemical; energy balance only on l/g streams; destination-side content that copy_flow overwrites is not judged.'),
